@@ -1,4 +1,4 @@
-"""C19 at term level, integers only (partial): the text of an integer parses back to it."""
+"""C19 at term level: the text of a canonical term parses back to it (theorem C19_roundtrip_terms), and Display gives that text."""
 from gen import parse_common as pc
 from lib import sx
 
@@ -21,13 +21,50 @@ def cases(tier, rng):
         for op, text, ctx in (("parse-list", "[%d]" % v, "list"), ("parse-subgoal", "$X = %d" % v, "infix"),
                               ("parse-complex", "f(%d, %d)" % (v, -v if v > -2**63 else 0), "complex")):
             c = pc.case(op, text); _VAL[c] = (v, ctx); out.append((c, "int/" + ctx))
+    # canonical terms (the class of Proofs/TermRoundtripMain.v, plus `$_` as a list tail): Display gives the canonical
+    # text, and the text parses back to the term
+    from lib.sx import atom, integer, var, cplx, lst, ANON, EMPTY, S
+    ATOMS = ["a", "b", "abc", "x_1", "aB9", "z"]
+    VNAMES = ["$X", "$Y", "$Tail", "$x1", "$A_b"]
+    def canon(depth):
+        """-> (wire term, text)"""
+        r = rng.random()
+        if depth <= 0 or r < 0.4:
+            k = rng.random()
+            if k < 0.3: a = rng.choice(ATOMS); return atom(a), a
+            if k < 0.55: v = rng.choice([0, 1, -1, 42, -17, 2**63 - 1, -2**63, rng.randint(-10**6, 10**6)]); return integer(v), str(v)
+            if k < 0.85: n = rng.choice(VNAMES); return var(0, n), n
+            return ANON, "$_"
+        if r < 0.7:
+            n = rng.randint(0, 3)
+            el = [canon(depth - 1) for _ in range(n)]
+            if n and rng.random() < 0.4:
+                if rng.random() < 0.5: tn = rng.choice(VNAMES); tail, tt = var(0, tn), tn
+                else: tail, tt = ANON, "$_"
+                return lst([e[0] for e in el], tail), "[" + ", ".join(e[1] for e in el) + " | " + tt + "]"
+            return (lst([e[0] for e in el]) if n else EMPTY), "[" + ", ".join(e[1] for e in el) + "]"
+        n = rng.randint(0, 3)
+        f = rng.choice(["f", "g", "point", "h_2"])
+        el = [canon(depth - 1) for _ in range(n)]
+        return cplx(f, *[e[0] for e in el]), f + "(" + ", ".join(e[1] for e in el) + ")"
+    m = 2500 if tier == "quick" else 40000
+    seen = set()
+    for _ in range(m):
+        t, text = canon(rng.choice([1, 2, 2, 3]))
+        if text in seen: continue
+        seen.add(text)
+        c1 = "(show-term %s)" % t; _VAL[c1] = ("show", "(ok %s)" % S(text)); out.append((c1, "canonical/show"))
+        c2 = pc.case("parse-term", text); _VAL[c2] = ("parse", "(ok %s)" % t); out.append((c2, "canonical/parse"))
     return out
 
 RULE = ("Decimal texts of 64-bit integers (extremes, -300..300, random magnitudes 2^1..2^63) parsed alone, as an argument, in a "
         "list, as operand of `=`, and as arguments of f(v, -v). Relation on the implementation's results: the integer comes "
-        "back in every context. Non-trivial = negative or at least 10 digits.")
+        "back in every context. Canonical terms (atoms [a-z][A-Za-z0-9_]*, integers, variables, $_, complex terms, lists with and "
+        "without tail variable or `$_` tail, nested to depth 3): Display of the term gives its canonical text and that text parses "
+        "back to the term (theorem C19_roundtrip_terms; both checked on the implementation). Non-trivial = negative or at least 10 digits.")
 
 def nontrivial(case, tag, result):
+    if tag.startswith("canonical"): return "(l " in case or "(c " in case or "[" in pc.uncase(case)[1] if case.startswith("(parse") else True
     v, _ = _VAL.get(case, (0, None))
     return v < 0 or abs(v) >= 10**9
 
@@ -35,6 +72,12 @@ def relations(cases, impl):
     for (case, tag), (out, res) in zip(cases, impl):
         v, ctx = _VAL.get(case, (None, None))
         if v is None: continue
+        if v in ("show", "parse"):
+            if res != ctx:
+                yield dict(case=case, tag=tag, why=("Display of a canonical term is not its canonical text" if v == "show"
+                                                    else "the canonical text of a term does not parse back to the term"),
+                           implementation=dict(result=res, expected=ctx))
+            continue
         i = "(i %d)" % v
         want = {"alone": "(ok %s)" % i, "arg": "(ok (%s))" % i,
                 "list": "(ok (l %s (l nil nil 0 0) 1 0))" % i,
